@@ -94,8 +94,10 @@ end gssvx
 
 /-! ### ?gstrs (trans, L, U, perm_r, perm_c, B, Gstat, info) -/
 namespace gstrs
-/-- 1 trans: "= NOTRANS: A * X = B; = TRANS: A'* X = B"  (the header of all four precisions lists these two) -/
-def violates_1 (a : GstrsArgs) : Bool := decide (¬(a.trans = NOTRANS ∨ a.trans = TRANS))
+/-- 1 trans.  s/d header (since /repo 2acf694): "= NOTRANS: A * X = B; = TRANS: A'* X = B; = CONJ: A**H * X = B";
+    the c/z header still lists NOTRANS and TRANS only.  `docConj` = "this precision's header lists CONJ". -/
+def violates_1 (docConj : Bool) (a : GstrsArgs) : Bool :=
+  decide (¬(a.trans = NOTRANS ∨ a.trans = TRANS ∨ (docConj = true ∧ a.trans = CONJ)))
 /-- 2 L: "L has types: Stype = SCP, Dtype = _D, Mtype = TRLU" (square factor) -/
 def shape_2 (a : GstrsArgs) : Bool := decide (a.L_nrow ≠ a.L_ncol ∨ a.L_nrow < 0)
 def types_2 (dt : Int) (a : GstrsArgs) : Bool := decide (a.L_Stype ≠ SLU_SCP ∨ a.L_Dtype ≠ dt ∨ a.L_Mtype ≠ SLU_TRLU)
@@ -108,10 +110,10 @@ def violates_3 (dt : Int) (a : GstrsArgs) : Bool := shape_3 a || types_3 dt a
 def shape_6 (a : GstrsArgs) : Bool := decide (a.B_lda < max 0 a.L_nrow)
 def types_6 (dt : Int) (a : GstrsArgs) : Bool := decide (a.B_Stype ≠ SLU_DN ∨ a.B_Dtype ≠ dt ∨ a.B_Mtype ≠ SLU_GE)
 def violates_6 (dt : Int) (a : GstrsArgs) : Bool := shape_6 a || types_6 dt a
-def table (dt : Int) (a : GstrsArgs) : List (Nat × Bool) :=
-  [(1, violates_1 a), (2, violates_2 dt a), (3, violates_3 dt a), (4, false), (5, false), (6, violates_6 dt a), (7, false)]
-def docInfo (dt : Int) (a : GstrsArgs) : Int := firstOffender (table dt a)
-def valid (dt : Int) (a : GstrsArgs) : Bool := allValid (table dt a)
+def table (docConj : Bool) (dt : Int) (a : GstrsArgs) : List (Nat × Bool) :=
+  [(1, violates_1 docConj a), (2, violates_2 dt a), (3, violates_3 dt a), (4, false), (5, false), (6, violates_6 dt a), (7, false)]
+def docInfo (docConj : Bool) (dt : Int) (a : GstrsArgs) : Int := firstOffender (table docConj dt a)
+def valid (docConj : Bool) (dt : Int) (a : GstrsArgs) : Bool := allValid (table docConj dt a)
 end gstrs
 
 /-! ### ?gsrfs (trans, A, L, U, perm_r, perm_c, equed, R, C, B, X, ferr, berr, Gstat, info) -/
